@@ -39,7 +39,7 @@ type Step struct {
 	Seed    uint64 `json:"seed,omitempty"`
 	Shuffle bool   `json:"shuffle,omitempty"` // mpt: deliver the answer in a drawn permutation
 	Dup     int    `json:"dup,omitempty"`     // mpt: duplicated nodes added to the answer
-	Wrong   []int  `json:"wrong,omitempty"`   // mpt: 1 altered byte, 2 node of another height's trie, 3 valid node nobody asked for
+	Wrong   []int  `json:"wrong,omitempty"`   // mpt: 1 altered byte, 2 node of another height's trie, 3 valid node nobody asked for, 4 truncated node, 5 serialised empty node
 	Gap     bool   `json:"gap,omitempty"`     // headers: chunk that does not connect (must be rejected)
 }
 
@@ -51,8 +51,10 @@ type SCase struct {
 	Node      ck.NodeCfg     `json:"node"`
 	InitAt    int            `json:"init_at"` // height of the source when the syncing node starts
 	Steps     []Step         `json:"steps"`
-	CrashJump bool           `json:"crash_jump"`        // enumerate crash points inside the last AddBlock / state jump
-	Tail      []int          `json:"tail"`              // per block after P: bit0 flush+GC tick, bit1 restart
+	CrashJump bool           `json:"crash_jump"`          // enumerate crash points inside the last AddBlock / state jump
+	Tail      []int          `json:"tail"`                // per block after P: bit0 flush+GC tick, bit1 restart
+	FinalBad  int            `json:"final_bad,omitempty"` // !=0: the batch that completes the MPT (sent once <= FinalAt nodes are unknown) ends with a wrong node of this kind
+	FinalAt   int            `json:"final_at,omitempty"`
 	Trusted   int            `json:"trusted,omitempty"` // 0: headers from genesis; k>0: TrustedHeader configured, k selects its height among the admissible ones
 }
 
@@ -78,8 +80,8 @@ func genStep(t *rapid.T) Step {
 		if rapid.IntRange(0, 2).Draw(t, "hasdup") == 0 {
 			s.Dup = rapid.IntRange(1, 4).Draw(t, "dup")
 		}
-		if rapid.IntRange(0, 3).Draw(t, "haswrong") == 0 {
-			s.Wrong = rapid.SliceOfN(rapid.IntRange(1, 3), 1, 3).Draw(t, "wrong")
+		if rapid.IntRange(0, 2).Draw(t, "haswrong") == 0 {
+			s.Wrong = rapid.SliceOfN(rapid.IntRange(1, 5), 1, 3).Draw(t, "wrong")
 		}
 		s.Gap = rapid.IntRange(0, 9).Draw(t, "gap") == 0
 	case "grow":
@@ -123,6 +125,8 @@ func genSCase(t *rapid.T) SCase {
 	}
 	c.Steps = rapid.SliceOfN(rapid.Custom(genStep), 20, 70).Draw(t, "steps")
 	c.CrashJump = rapid.Bool().Draw(t, "crash_jump")
+	c.FinalBad = rapid.SampledFrom([]int{0, 0, 0, 4, 5, 1}).Draw(t, "final_bad")
+	c.FinalAt = rapid.IntRange(1, 6).Draw(t, "final_at")
 	if rapid.IntRange(0, 2).Draw(t, "has_trusted") == 0 {
 		c.Trusted = rapid.IntRange(1, 40).Draw(t, "trusted")
 	}
@@ -365,8 +369,10 @@ type driver struct {
 	kF1, kF2, kF3 bool   // listed known findings (see register.go)
 	// pointSaved: the chosen sync point has reached the database (a flush happened since the first Init). Before
 	// that a crash legitimately makes the node choose again, so the peer must not leave P's interval yet.
-	pointSaved bool
-	stats      struct {
+	pointSaved    bool
+	finalDone     bool // the completing batch with a bad tail was sent
+	mptCallsStage int  // AddMPTNodes calls made by this driver
+	stats         struct {
 		restartsMPT, crashesMPT, wrong, restarts, crashes, flushes, mptCalls, hdrCalls, blkCalls int
 		restartStage                                                                             map[string]int
 	}
@@ -671,6 +677,15 @@ func (d *driver) feedMPT(st Step) error {
 			req = append(req, unk[j])
 		}
 	}
+	// (not at the start of the stage, when the pool holds just the root and its first descendants)
+	final := !d.plain && d.c.FinalBad != 0 && !d.finalDone && d.mptCallsStage >= 8 && len(unk) <= max(d.c.FinalAt, 1)
+	if final {
+		// Ask for everything that is left and get complete subtrees: this batch completes the trie.
+		req = unk
+		st.B = 1 << 30
+		st.Dup, st.Shuffle, st.Wrong = 0, false, []int{d.c.FinalBad}
+		d.finalDone = true
+	}
 	resp, err := d.src.serve(req, max(st.B, 1))
 	if err != nil {
 		return err
@@ -702,6 +717,12 @@ func (d *driver) feedMPT(st Step) error {
 			case 3:
 				h := d.src.order[rnd.intn(len(d.src.order))]
 				items = append(items, item{b: bytes.Clone(d.src.nodesP[h]), wrong: 3})
+			case 4: // a node asked for, cut short
+				h := req[rnd.intn(len(req))]
+				b := bytes.Clone(d.src.nodesP[h])
+				items = append(items, item{b: b[:len(b)-1-rnd.intn(min(3, len(b)-1))], wrong: 4, orig: h})
+			case 5: // the (valid) serialisation of an empty node: nothing that can be asked for
+				items = append(items, item{b: []byte{0x04}, wrong: 5})
 			}
 		}
 		if st.Shuffle {
@@ -719,11 +740,12 @@ func (d *driver) feedMPT(st Step) error {
 			d.stats.wrong++
 			d.o.Labelf("wrong-node:%d", it.wrong)
 		}
-		if it.wrong == 1 {
+		if it.wrong == 1 || it.wrong == 4 || it.wrong == 5 {
 			altered = true
 		}
 	}
 	d.stats.mptCalls++
+	d.mptCallsStage++
 	d.o.Units(len(nodes))
 	err = d.mod.AddMPTNodes(nodes)
 	if err != nil && !altered {
@@ -753,6 +775,11 @@ func (d *driver) feedMPT(st Step) error {
 		}
 	} else if len(d.unknown()) != 0 {
 		return fmt.Errorf("MPT stage is over but %d nodes are still unknown", len(d.unknown()))
+	} else if final {
+		d.o.Label("completing-batch-with-bad-tail")
+		if err != nil {
+			d.o.Label("completing-batch-returned-error")
+		}
 	}
 	return nil
 }
